@@ -86,6 +86,8 @@ type c09Case struct {
 	PrimeAll      bool     `json:"prime_all"`       // one priming call per proxy (in parallel) before the callers start
 	StaggerUs     int      `json:"stagger_us"`      // > 0: the callers of proxy i leave together, i*stagger_us after the first group
 	SmallBuf      bool     `json:"small_buf"`       // the peer's sockets get a tiny receive buffer: a write of some 100 KB already blocks
+	CancelMs      int      `json:"cancel_ms"`       // > 0: the caller cancels the call's context this long after it started the call
+	RejectMod     int      `json:"reject_mod"`      // n > 0: the client filter (cf / mw) rejects every call whose index is n-1 modulo n, without invoking
 	HandshakeMs   int      `json:"handshake_ms"`    // tls-slow: delay of the peer's side of the TLS handshake
 	IdleMs        int      `json:"idle_ms"`         // > 0: the client's idle timeout (the sender goroutine checks it once per second)
 	Gaps          []int    `json:"gaps"`            // pause after the j-th call of a caller (overrides gap_ms; the last one repeats)
@@ -302,11 +304,23 @@ func c09RunScenario(c *c09Case) *c09Obs {
 			time.Sleep(time.Duration(c.FilterSleepMs) * time.Millisecond)
 		}
 	}
+	// a client filter that turns some calls away without invoking them
+	rejected := func(ctx context.Context) error {
+		call, _ := ctx.Value(c09CtxKey{}).(int)
+		if c.RejectMod > 0 && call%c.RejectMod == c.RejectMod-1 {
+			return fmt.Errorf("rejected by the client filter")
+		}
+		return nil
+	}
 	if c.Filter == "mw" {
 		tars.UseClientFilterMiddleware(func(next tars.ClientFilter) tars.ClientFilter {
 			return func(ctx context.Context, msg *tars.Message, invoke tars.Invoke, timeout time.Duration) error {
 				pre(ctx, msg)
 				nap()
+				if rerr := rejected(ctx); rerr != nil {
+					post(ctx, msg, rerr)
+					return rerr
+				}
 				err := next(ctx, msg, invoke, timeout)
 				post(ctx, msg, err)
 				return err
@@ -316,6 +330,10 @@ func c09RunScenario(c *c09Case) *c09Obs {
 		tars.RegisterClientFilter(func(ctx context.Context, msg *tars.Message, invoke tars.Invoke, timeout time.Duration) error {
 			pre(ctx, msg)
 			nap()
+			if rerr := rejected(ctx); rerr != nil {
+				post(ctx, msg, rerr)
+				return rerr
+			}
 			err := invoke(ctx, msg, timeout)
 			post(ctx, msg, err)
 			return err
@@ -369,6 +387,13 @@ func c09RunScenario(c *c09Case) *c09Obs {
 		cancel := func() {}
 		if c.CtxMs > 0 {
 			ctx, cancel = context.WithTimeout(ctx, time.Duration(c.CtxMs)*time.Millisecond)
+		}
+		if c.CancelMs > 0 { // the caller cancels its context while the call is under way
+			var cf context.CancelFunc
+			ctx, cf = context.WithCancel(ctx)
+			tm := time.AfterFunc(time.Duration(c.CancelMs)*time.Millisecond, cf)
+			prev := cancel
+			cancel = func() { tm.Stop(); cf(); prev() }
 		}
 		var resp requestf.ResponsePacket
 		log.add(c09Event{Kind: "start", Call: call})
@@ -913,9 +938,13 @@ func c09Coq(c *c09Case) string {
 		}
 		nconn = fmt.Sprintf("(Some %d)", acc)
 	}
-	return fmt.Sprintf("mkcase (mkcfg %d %d %d %d %d %d) %s [%s] %d %d %d [%s] %s %s %s %s %s [%s] [%s] (%d, %d, %d)",
+	canc := "None"
+	if c.CancelMs > 0 {
+		canc = fmt.Sprintf("(Some %d)", c09U(c.CancelMs))
+	}
+	return fmt.Sprintf("mkcase (mkcfg %d %d %d %d %d %d) %s [%s] %d %d %d [%s] %s %s %d %s %s %s %s [%s] [%s] (%d, %d, %d)",
 		c09U(c.DialMs), c09U(c.WriteMs), c09U(c.ReadMs), c.QueueLen, objMax, idle, conn, strings.Join(acts, "; "),
-		c.Callers, c.Calls, c09U(c.eff()), strings.Join(gl, "; "), coqBool(c.OneWay), coqBool(c.Prime && c.Callers > 1), pred, nconn, held, strings.Join(obs, "; "), strings.Join(evs, "; "),
+		c.Callers, c.Calls, c09U(c.eff()), strings.Join(gl, "; "), coqBool(c.OneWay), canc, c.RejectMod, coqBool(c.Prime && c.Callers > 1), pred, nconn, held, strings.Join(obs, "; "), strings.Join(evs, "; "),
 		c09NN(o.QueueLen), c09NN(o.InvokeNum), len(o.Pending))
 }
 
@@ -1309,6 +1338,49 @@ func c09Gen(tier string, rng *rand.Rand) []c09Case {
 		c.CtxMs = pick(200, 250)
 		c.Calls = 2
 		c.GapMs = 20
+		cs = append(cs, c)
+		// ---- the caller cancels its context while the call waits (silent and slow peers, with and without a deadline of its
+		// own, before and after the deadline): the call returns at once with the timeout error and leaves nothing behind
+		c = base("cancel-sequential", "accept", []c09Act{{"reply", 0}, {"none", 0}, {"reply", 350}, {"reply", 30}})
+		c.TimeoutMs = pick(300, 400)
+		c.CancelMs = pick(80, 120, 150)
+		c.Calls = 4
+		c.GapMs = 10
+		cs = append(cs, c)
+		c = base("cancel-concurrent", "accept", []c09Act{{Do: "none"}})
+		c.TimeoutMs = pick(300, 400)
+		c.CancelMs = pick(80, 120)
+		c.Callers = pick(2, 8, 16)
+		cs = append(cs, maybePrime(c))
+		c = base("cancel-with-caller-deadline", "accept", []c09Act{{"reply", 0}, {"none", 0}})
+		c.TimeoutMs = 600
+		c.CtxMs = pick(250, 300)
+		c.CancelMs = pick(80, 120)
+		c.Calls = 2
+		cs = append(cs, c)
+		c = base("cancel-after-deadline", "accept", []c09Act{{"reply", 0}, {"none", 0}})
+		c.TimeoutMs = pick(200, 250)
+		c.CancelMs = c.TimeoutMs + 150
+		c.Calls = 2
+		cs = append(cs, c)
+		// ---- a client filter rejects calls without invoking them: an error at once, nothing registered, postInvoke still runs
+		c = base("filter-reject-sequential", "accept", rep(pick(0, 20)))
+		c.Filter = []string{"cf", "mw"}[rng.Intn(2)]
+		c.RejectMod = pick(2, 3)
+		c.Calls = 6
+		c.GapMs = 10
+		cs = append(cs, c)
+		c = base("filter-reject-all-concurrent", "accept", rep(0))
+		c.Filter = []string{"cf", "mw"}[rng.Intn(2)]
+		c.RejectMod = 1
+		c.Callers = pick(4, 16)
+		cs = append(cs, c)
+		c = base("filter-reject-some-concurrent", "accept", []c09Act{{Do: "none"}})
+		c.Filter = []string{"cf", "mw"}[rng.Intn(2)]
+		c.RejectMod = 3
+		c.Callers = pick(6, 12)
+		c.Calls = 2
+		c.Predict = false
 		cs = append(cs, c)
 		// datagram transport: no connection to establish or lose
 		c = base("udp-mixed-sequential", "udp", nil)
